@@ -5,6 +5,7 @@ import (
 	"fmt"
 	"os"
 	"path/filepath"
+	"runtime/debug"
 	"sort"
 	"strconv"
 	"strings"
@@ -51,6 +52,7 @@ func main() {
 	viewFlag := flag.Int("view", 0, "debug: run the rules on this inlining view only")
 	modeFlag := flag.Int("mode", 0, "inlining view for -dump (0 none, 1 new helpers, 2 all same-package functions)")
 	listFuncs := flag.Bool("listfuncs", false, "print the names of all functions of the tree (to regenerate baseline_funcs.txt)")
+	listSigs := flag.Bool("listsigs", false, "print name<TAB>signature shape for every function of the tree (to regenerate baseline_sigs.txt)")
 	listFields := flag.Bool("listfields", false, "print rel|Type|field|type for every struct field of the tree (to regenerate baseline_fields.txt)")
 	overlayArg := flag.String("overlay", "", "relpath=file: analyse the tree with this file's content in place of relpath (in memory)")
 	patchFile := flag.String("patch", "", "analyse the tree as if this unified diff (paths relative to the tree root, -p1) were applied (in memory, via an overlay; the tree itself is not touched)")
@@ -86,6 +88,17 @@ func main() {
 			os.Exit(2)
 		}
 		for _, l := range P.ListFields() {
+			fmt.Println(l)
+		}
+		return
+	}
+	if *listSigs {
+		P, err := Load(LoadOpts{Dir: *repo, Tags: "verif", MinPkgs: 1})
+		if err != nil {
+			fmt.Println("load error:", err)
+			os.Exit(2)
+		}
+		for _, l := range P.ListSigs() {
 			fmt.Println(l)
 		}
 		return
@@ -207,6 +220,9 @@ func main() {
 			defer func() {
 				if r := recover(); r != nil {
 					R.Unproven("internal", "(checker)", "panic", "", fmt.Sprintf("checker panicked: %v", r))
+					if os.Getenv("TYPCHECK_TRACE") != "" {
+						debug.PrintStack()
+					}
 				}
 			}()
 			spec.run(c)
